@@ -28,13 +28,13 @@ def target_like(x, mode: str, rng=None):
         if rng is not None and rng.random() < 0.5:
             return torch.zeros(list(x.shape) + [2], dtype=x.dtype)
         return torch.zeros(x.shape, dtype=torch.int8 if x.dtype != torch.int8 else torch.int16)
-    if isinstance(x, OrderedDict):
+    if type(x) is OrderedDict:
         return OrderedDict((k, target_like(v, mode, rng)) for k, v in x.items())
-    if isinstance(x, dict):
+    if type(x) is dict:
         if not all(isinstance(k, (str, int)) for k in x) or len({str(k) for k in x}) < len(x):
             return None         # opaque object
         return {k: target_like(v, mode, rng) for k, v in x.items()}
-    if isinstance(x, list):
+    if type(x) is list:
         return [target_like(v, mode, rng) for v in x]
     return None
 
